@@ -246,7 +246,12 @@ func init() {
 					}})
 				}
 				if n.major != refcbor.Uint {
-					for _, b := range c13Bounds {
+					bounds := c13Bounds
+					if c.Quick() {
+						// (the full boundary list is swept by C13/wide-arguments)
+						bounds = []uint64{0, 1, 24, 256, 1 << 32, 1<<63 - 1, 1 << 63, 1<<64 - 9, 1<<64 - 1}
+					}
+					for _, b := range bounds {
 						b := b
 						muts = append(muts, mut{fmt.Sprintf("length/count of head %d set to %d", idx, b), func() []byte {
 							n.arg = b
@@ -281,6 +286,37 @@ func init() {
 		Describe: func(v interface{}) string { cs := v.(*c13Case); return hx(cs.input) + " (" + cs.note + ")" },
 	}
 
+	// maps of 1..3 pairs with keys drawn (with repetition, in every order) from a pool
+	// of encoded keys of different types and lengths: ordering and duplicate rules
+	// across length classes, at top level and nested in an array / as a map value.
+	keyPool := [][]byte{{0x00}, {0x17}, {0x18, 0x18}, {0x19, 0x01, 0x00}, {0x40}, {0x41, 0x61}, {0x61, 0x62}, {0x63, 0x61, 0x62, 0x63}, {0x80}, {0xa0}, {0x18, 0x17}}
+	maps := &mc.Harness{
+		Name:     "C13/maps",
+		Isolated: true,
+		Gen: func(c *mc.Ctx) interface{} {
+			n := 1 + c.Free(3, "pairs")
+			m := []byte{0xa0 | byte(n)}
+			for i := 0; i < n; i++ {
+				m = append(m, keyPool[c.Free(len(keyPool), "key")]...)
+				vals := [][]byte{{0x00}, {0x18, 0x01}, {0xa2, 0x01, 0x00, 0x00, 0x00}, {0x81, 0x18, 0x18}}
+				m = append(m, vals[c.Free(len(vals), "value")]...)
+			}
+			var in []byte
+			switch c.Free(3, "context") {
+			case 0:
+				in = m
+			case 1:
+				in = append([]byte{0x82}, m...)
+				in = append(in, 0x00)
+			case 2:
+				in = append([]byte{0xa1, 0x00}, m...)
+			}
+			return &c13Case{input: in, family: "maps"}
+		},
+		Exec:     c13Exec,
+		Describe: func(v interface{}) string { return hx(v.(*c13Case).input) },
+	}
+
 	// everything the real encoder emits in the subset must be accepted
 	encOut := &mc.Harness{
 		Name: "C13/encoder-output",
@@ -309,9 +345,9 @@ func init() {
 	register(&mc.Property{
 		ID:          "C13",
 		Level:       "model_checking",
-		Rule:        "choice-tree enumeration of inputs to cbor.Deterministic executed in watchdog-supervised workers: all byte strings of length <=2 (quick) / <=3 (thorough, 16.8 M); all strings of length <=4 (quick) / <=5 (thorough) over a 23-byte grammar alphabet; every head of the subset with an argument from a 32-value boundary list (incl. 2^62, 2^63+-1, 2^64-k for k<=16) in every head width, 0..3 content bytes, in 5 nesting contexts; every generated nested item with <=4 (quick) / <=5 (thorough) nodes, depth <=3, unmutated and with one mutation (head widened, length/count replaced by each boundary value, key pair swapped/duplicated, truncation at every offset, trailing byte). Oracle: reference recogniser refcbor.Deterministic (total, uint64 arithmetic); panic counts as refusal, non-termination (watchdog) is a violation. Non-trivial = reference made a verdict the implementation matched; distinct by input hash.",
+		Rule:        "choice-tree enumeration of inputs to cbor.Deterministic executed in watchdog-supervised workers: all byte strings of length <=2 (quick) / <=3 (thorough, 16.8 M); all strings of length <=4 (quick) / <=5 (thorough) over a 23-byte grammar alphabet; every head of the subset with an argument from a 32-value boundary list (incl. 2^62, 2^63+-1, 2^64-k for k<=16) in every head width, 0..3 content bytes, in 5 nesting contexts; every map of 1..3 pairs with keys (with repetition, every order) from an 11-key pool of mixed types/lengths and 4 value shapes in 3 contexts; every generated nested item with <=4 (quick) / <=5 (thorough) nodes, depth <=3, unmutated and with one mutation (head widened, length/count replaced by each boundary value, key pair swapped/duplicated, truncation at every offset, trailing byte). Oracle: reference recogniser refcbor.Deterministic (total, uint64 arithmetic); panic counts as refusal, non-termination (watchdog) is a violation. Non-trivial = reference made a verdict the implementation matched; distinct by input hash.",
 		Assumptions: []string{"refcbor.Deterministic implements RFC 8949 section 4.2.1 for major types 0,2,3,4,5 (text is not required to be valid UTF-8: well-formedness, not validity)", "a panic of cbor.Deterministic is its way of refusing truncated input (required by the repository's own tests)"},
-		Harnesses:   []*mc.Harness{all, reduced, wide, trees, encOut},
+		Harnesses:   []*mc.Harness{all, reduced, wide, maps, trees, encOut},
 		Guard: func(s map[string]*mc.Stats) error {
 			t := s["C13/generated-items"]
 			if t.Executions < 10000 {
